@@ -16,7 +16,7 @@ ASSUMPTIONS = [
     'double_sha256 / hash160 / sha256 are uninterpreted functional symbols: the txid obligation compares the byte string handed to the hash with the witness-stripped reference serialization',
     'the serialized transaction is assembled by the harness from a symbolic shape (counts, field lengths: scheduler choices) and symbolic content',
 ]
-BOUNDS = {'quick': 'legacy and segwit transactions with 1..2 inputs and 1..2 outputs; version, locktime, sequences, outpoints, values fully symbolic; unlocking scripts: empty, standard <sig 71|72><pubkey 33> with symbolic bytes, 1 fully symbolic byte; locking scripts: P2PKH / P2SH / P2WPKH / P2WSH templates with symbolic hash, empty, 1 fully symbolic byte; witness stacks: none, <sig><pubkey>, one item of 1 symbolic byte, empty item',
+BOUNDS = {'quick': 'Input(witnesses=<wire bytes>) with 1..2 items of 0, 1, 2, 252, 253, 300 bytes; legacy and segwit transactions with 1..2 inputs and 1..2 outputs; version, locktime, sequences, outpoints, values fully symbolic; unlocking scripts: empty, standard <sig 71|72><pubkey 33> and <sig><uncompressed pubkey 65> with symbolic bytes, 1 fully symbolic byte; locking scripts: P2PKH / P2SH / P2WPKH / P2WSH templates with symbolic hash, empty, 1 fully symbolic byte; witness stacks: none, <sig><pubkey>, one item of 1 symbolic byte, empty item',
           'thorough': 'as quick plus 2 fully symbolic script bytes and 3 inputs/outputs'}
 OUTSIDE = 'scripts longer than the bound with fully symbolic content; taproot witness interpretation; blocks with transactions (only the header/target arithmetic is encoded)'
 
